@@ -161,6 +161,11 @@ func (o *Oblig) Solve(dir string, tier string, seed int) {
 	if tier == "thorough" {
 		sec = 60
 	}
+	if tier == "retry" {
+		// second attempt of an obligation that did not discharge under the quick limit (machine
+		// load, solver luck): race again with a longer limit
+		sec = 40
+	}
 	if wantSat {
 		sec = 3
 	}
